@@ -245,18 +245,66 @@ Proof.
   apply bind_np; [apply app_np|]. intros b. destruct b as [| | |[|]| | | |]; try discriminate. apply IH.
 Qed.
 
+Lemma mapargs_app_np : forall f a, mapargs_app app f a <> Panic.
+Proof.
+  induction a as [|x r IH]; simpl; [discriminate|].
+  apply bind_np; [apply app_np|]. intros y. apply bind_np; [apply IH|discriminate].
+Qed.
+
+Lemma compact_app_np : forall f l last, compact_app app f last l <> Panic.
+Proof.
+  induction l as [|x r IH]; intros last; simpl; [discriminate|].
+  apply bind_np; [apply app_np|]. intros b. destruct b as [| | |[|]| | | |]; try discriminate; [apply IH|].
+  apply bind_np; [apply IH|discriminate].
+Qed.
+
+Lemma scan_app_np : forall three f l li la, scan_app app three f li la l <> Panic.
+Proof.
+  induction l as [|x r IH]; intros li la; simpl; [discriminate|].
+  apply bind_np; [apply app_np|]. intros o. apply bind_np; [apply IH|discriminate].
+Qed.
+
+Lemma iir_app_np : forall three ini f l, iir_app app three ini f l <> Panic.
+Proof.
+  intros three ini f l. destruct l as [|x r]; simpl; [discriminate|].
+  apply bind_np; [apply app_np|]. intros o. apply bind_np; [apply scan_app_np|discriminate].
+Qed.
+
+Lemma merge_app_np : forall f l1 l2, merge_app app f l1 l2 <> Panic.
+Proof.
+  induction l1 as [|a l1 IH1]; intros l2.
+  - destruct l2; simpl; discriminate.
+  - induction l2 as [|b l2 IH2]; cbn [merge_app]; [discriminate|].
+    apply bind_np; [apply app_np|]. intros v. destruct v as [| | |[|]| | | |]; try discriminate.
+    + apply bind_np; [apply IH1|discriminate].
+    + apply bind_np; [exact IH2|discriminate].
+Qed.
+
+Lemma minmax_app_np : forall f l mn mx mni mxi, minmax_app app f mn mx mni mxi l <> Panic.
+Proof.
+  induction l as [|x r IH]; intros mn mx mni mxi; cbn [minmax_app]; [discriminate|].
+  apply bind_np; [apply app_np|]. intros k. apply bind_np; [apply vless_np|]. intros le.
+  apply bind_np; [apply vless_np|]. intros gr. apply IH.
+Qed.
+
+Ltac lm :=
+  repeat first
+    [ discriminate
+    | apply app_np | apply fold_app_np | apply fold_calc_np | apply pick_min_np | apply pick_max_np
+    | apply calc_np | apply minmax_app_np
+    | apply bind_np;
+        [ first [ apply map_app_np | apply accept_app_np | apply index_where_np | apply mapargs_app_np
+                | apply compact_app_np | apply iir_app_np | apply merge_app_np | apply fold_calc_np
+                | apply app_np ]
+        | intros ]
+    | match goal with |- context [match ?x with _ => _ end] => destruct x end ].
+
 Lemma run_list_method_np : forall m l args, run_list_method app m l args <> Panic.
 Proof.
   intros m l args. unfold run_list_method.
   repeat match goal with
-  | |- (if ?c then _ else _) <> _ => destruct c
-  end;
-  try (destruct args as [|a0 [|a1 [|a2 r]]]; try discriminate);
-  try (destruct (is_func _ _); [|discriminate]);
-  try (destruct l; [discriminate|]);
-  first [ apply fold_app_np | apply fold_calc_np
-        | apply bind_np; [first [apply map_app_np | apply accept_app_np | apply index_where_np]|discriminate]
-        | np ].
+  | |- (if str_eqb m ?n then _ else _) <> _ => destruct (str_eqb m n)
+  end; lm.
 Qed.
 
 Lemma run_map_method_np : forall mn m args, run_map_method mn m args <> Panic.
